@@ -5,7 +5,7 @@ import numpy as np
 from typing_extensions import Unpack
 
 from classy_blocks.base.element import ElementBase
-from classy_blocks.base.exceptions import EdgeCreationError
+from classy_blocks.base.exceptions import CornerPairError, EdgeCreationError
 from classy_blocks.base.transforms import Mirror
 from classy_blocks.construct.edges import Arc, EdgeData, Line, Project, Spline
 from classy_blocks.construct.flat.face import Face
@@ -106,6 +106,9 @@ class Operation(ElementBase):
     def project_edge(self, corner_1: int, corner_2: int, label: ProjectToType) -> None:
         """Replace an edge between given corners with a Projected one
         or add geometry to an already projected edge"""
+        if not (0 <= corner_1 <= 7 and 0 <= corner_2 <= 7):
+            raise CornerPairError(f"Invalid corners: {corner_1}-{corner_2}; use operation-local indexing (0...7)")
+
         # decide where the required edge sits
         loc = edge_map[corner_1][corner_2]
         corner = loc.start_corner
